@@ -300,7 +300,10 @@ def build(cfg):
     comps = [make_component(i, ms, stack, twin_of(cfg, i)) for i, ms in enumerate(cfg['shape'])]
     App = falcon.App if stack == 'wsgi' else falcon.asgi.App
     indep = cfg['indep']
-    if cfg['reg'] == 'ctor':
+    if cfg['reg'] == 'dup' and comps:
+        # one component object occupying two stack positions (top and bottom): two positions, two calls
+        app = App(middleware=comps + [comps[0]], independent_middleware=indep)
+    elif cfg['reg'] in ('ctor', 'dup'):
         app = App(middleware=comps or None, independent_middleware=indep)
     else:
         app = App(independent_middleware=indep)
@@ -374,6 +377,10 @@ def stack_model(cfg, choices, names):
         return 'raise'
 
     shape = cfg['shape']
+    # (component id, methods) per stack POSITION; reg='dup': the first component object is listed once more at the bottom
+    positions = list(enumerate(shape))
+    if cfg['reg'] == 'dup' and shape:
+        positions.append((0, shape[0]))
     target = cfg['target']
     complete = False
     failed = False
@@ -381,7 +388,7 @@ def stack_model(cfg, choices, names):
     params = ()
     resource = 'none'
     # -- request methods, top-down ---------------------------------------
-    for i, ms in enumerate(shape):
+    for i, ms in positions:
         if 'req' in ms and not complete:
             r = site(('req', i), REQ_ACTS, params)
             if r == 'complete':
@@ -392,7 +399,7 @@ def stack_model(cfg, choices, names):
         if 'resp' in ms:
             queued.append(i)
     if cfg['indep']:
-        queued = [i for i, ms in enumerate(shape) if 'resp' in ms]
+        queued = [i for i, ms in positions if 'resp' in ms]
     # -- routing, resource methods, responder --------------------------------
     if not failed and not complete:
         if target in ('routed', 'r405'):
@@ -401,7 +408,7 @@ def stack_model(cfg, choices, names):
         elif target == 'sink':
             params = ((names['sname'], names['sval']),)
         if resource == 'res':
-            for i, ms in enumerate(shape):
+            for i, ms in positions:
                 if 'rsrc' in ms:
                     r = site(('rsrc', i, params, 'res'), REQ_ACTS, params)
                     if r == 'complete':
@@ -779,7 +786,7 @@ def gen_configs(tier, seed):
                     flavours = ['plain', 'twin', 'mix']
                 else:
                     flavours = ['alt']
-                regs = ['ctor', 'add'] if 1 <= n <= 2 else ['ctor']
+                regs = ['ctor', 'add', 'dup'] if 1 <= n <= 2 else ['ctor']
                 for flavour in flavours:
                     for reg in regs:
                         for indep in (True, False):
